@@ -140,7 +140,7 @@ fn single_tag(i: u64) -> Option<Case> {
         2 => Node::If { arms: vec![(Cond::lit(true), inner, open)], else_: None, close },
         3 => Node::For { var: "i".into(), coll: Coll::Range(Expr::int(1), Expr::int(2)), limit: None, offset: None, reversed: false, body: inner, else_: None, open, close },
         4 => Node::Capture { name: "y".into(), body: inner, open, close },
-        5 => Node::Raw { body: format!("{w2}{{{{ x }}}}{w3}"), open, close },
+        5 => Node::Raw { body: if d[5] % 2 == 0 { format!("{w2}{{{{ x }}}}{w3}") } else { format!("{w2}a{{% endraw x %}}{w3}") }, open, close },
         _ => Node::Comment { body: format!("{w2}{{{{ x }}}}{w3}"), open, close },
     };
     Some(Case { nodes: vec![Node::Text(format!("a{w1}")), node, Node::Text(format!("{w4}b"))] })
